@@ -58,6 +58,10 @@ def main(argv=None) -> int:
             rep.extra["neutral_variant"] = nr
             if nr["exit"] != 0:
                 rep.errors.append(f"SELFTEST neutral variant ({nr['variant']}) is not silent: exit {nr['exit']} {nr['first']}")
+            nr2 = neutral_run(pid, project.repo, restyle=True)
+            rep.extra["neutral_variant_restyled"] = nr2
+            if nr2["exit"] != 0:
+                rep.errors.append(f"SELFTEST neutral variant ({nr2['variant']}) is not silent: exit {nr2['exit']} {nr2['first']}")
             from .selftest.run import refactor_runs
             rr = refactor_runs(pid, project.repo)
             rep.extra["refactorings"] = rr
